@@ -2,7 +2,7 @@
     of Theory/Winding.v (the general library of crossing numbers), which is independent of the ray and, for an
     outline with winding numbers in {0,1} (the input space of DESIGN D2), is membership in the region. *)
 From Coq Require Import ZArith Reals Lra Lia Bool List Arith Psatz.
-From G3 Require Import Model.Num Model.Base Model.Vec Model.Segment Model.Loop Theory.RInst Theory.LoopGeom Proofs.C05_pointtest.
+From G3 Require Import Model.Num Model.Base Model.Vec Model.Segment Model.Loop Model.PinnedLoop Theory.RInst Theory.LoopGeom Proofs.C05_pointtest.
 From G3 Require Theory.Cyclic Theory.Winding.
 Import ListNotations.
 Local Open Scope R_scope.
@@ -50,27 +50,39 @@ Proof.
   rewrite odd_countb. apply xpar_ext. intros a b Hin. apply ray_cross2_is_crd. apply He. exact Hin.
 Qed.
 
-(** [test_point] = parity of the winding number of the outline about q (in plane coordinates), computed along the ray of
-    the code; by [Winding.wn_ray_independent_strong] any other generic ray gives the same number *)
+(** the point test with any in-plane cast segment that passes every vertex = parity of the winding number of the outline
+    about q (in plane coordinates), computed along that ray *)
+Theorem test_point_gen_wn_parity (rayf : Loop R -> V -> V) (L : Loop R) (q o e1 e2 : V) :
+  lclosed L = true -> (1 <= llen L)%nat ->
+  let n := lnormal L in let d := rayf L q in
+  let pr := plane2 o e1 e2 in let q' := pr q in let d' := planev e1 e2 d in
+  vis_zero n = false -> 0 < vdot n n -> n = vcross e1 e2 -> vdot n d = 0 ->
+  (forall a b, In (a, b) (cyc_edges (verts L)) -> seg_contains_point (seg_new a b) q = Ok false /\ edge_generic n q d a b) ->
+  0 < vdot d d -> long_enough q d (verts L) ->
+  (forall a b, In (a, b) (cyc_edges (verts L)) -> orient2 (pr a) (pr b) q' <> 0) ->
+  loop_test_point_gen rayf L q = Ok (Z.odd (Winding.wn d' (map pr (verts L)) q')).
+Proof.
+  cbn zeta. intros Hc Hlen Hz Hnn Hn Hnd He Hdd Hlong Hed.
+  rewrite (test_point_gen_counts_ray_crossings rayf L q Hc Hlen Hz Hnn Hnd He Hdd Hlong). f_equal. rewrite odd_countb.
+  rewrite <- ray_parity_is_wn_parity.
+  - rewrite cyc_edges_map, xpar_map. apply xpar_ext. intros a b _. rewrite Hn. apply rayb3_plane.
+  - intros a b Iab. rewrite cyc_edges_map in Iab. apply in_map_iff in Iab. destruct Iab as [[u w] [E Iu]]. cbn [fst snd] in E. injection E as Ea Eb. subst a b.
+    apply Hed. exact Iu.
+Qed.
+
+(** ** the live code: [test_point] = parity of the winding number, along the code's ray ... *)
 Theorem test_point_wn_parity (L : Loop R) (q o e1 e2 : V) :
   lclosed L = true -> (2 <= llen L)%nat ->
   let n := lnormal L in let d := test_ray L q in
   let pr := plane2 o e1 e2 in let q' := pr q in let d' := planev e1 e2 d in
   vis_zero n = false -> 0 < vdot n n -> n = vcross e1 e2 ->
   (forall a b, In (a, b) (cyc_edges (verts L)) -> seg_contains_point (seg_new a b) q = Ok false /\ edge_generic n q d a b) ->
-  0 < vdot d d -> long_enough q d (verts L) ->
   (forall a b, In (a, b) (cyc_edges (verts L)) -> orient2 (pr a) (pr b) q' <> 0) ->
   loop_test_point L q = Ok (Z.odd (Winding.wn d' (map pr (verts L)) q')).
 Proof.
-  cbn zeta. intros Hc Hlen Hz Hnn Hn He Hdd Hlong Hed.
-  rewrite (test_point_counts_crossings L q Hc Hlen Hz Hnn He). f_equal.
-  assert (Hnd : vdot (lnormal L) (test_ray L q) = 0).
-  { apply (test_ray_in_plane L q Hlen). intros a b Hin. destruct (He a b Hin) as [_ [Hab [Haq _]]]. split; assumption. }
-  rewrite (count_long_segment_is_ray _ _ _ _ Hnd Hdd Hlong). rewrite odd_countb.
-  rewrite <- ray_parity_is_wn_parity.
-  - rewrite cyc_edges_map, xpar_map. apply xpar_ext. intros a b _. rewrite Hn. apply rayb3_plane.
-  - intros a b Iab. rewrite cyc_edges_map in Iab. apply in_map_iff in Iab. destruct Iab as [[u w] [E Iu]]. cbn [fst snd] in E. injection E as Ea Eb. subst a b.
-    apply Hed. exact Iu.
+  cbn zeta. intros Hc Hlen Hz Hnn Hn He Hed. rewrite test_point_is_gen. unfold test_ray in *.
+  destruct (loop_ray_facts L q Hlen (fun a b Hin => proj2 (He a b Hin))) as [Hnd [Hdd Hl]].
+  apply (test_point_gen_wn_parity loop_ray); try assumption. lia.
 Qed.
 
 (** for an outline whose winding numbers are 0 or 1 (a valid polygon in the sense of DESIGN D2): inside <-> wn = 1 *)
@@ -80,31 +92,45 @@ Corollary test_point_is_membership (L : Loop R) (q o e1 e2 : V) :
   let pr := plane2 o e1 e2 in let q' := pr q in let d' := planev e1 e2 d in
   vis_zero n = false -> 0 < vdot n n -> n = vcross e1 e2 ->
   (forall a b, In (a, b) (cyc_edges (verts L)) -> seg_contains_point (seg_new a b) q = Ok false /\ edge_generic n q d a b) ->
-  0 < vdot d d -> long_enough q d (verts L) ->
   (forall a b, In (a, b) (cyc_edges (verts L)) -> orient2 (pr a) (pr b) q' <> 0) ->
   (0 <= Winding.wn d' (map pr (verts L)) q' <= 1)%Z ->
   (loop_test_point L q = Ok true <-> Winding.wn d' (map pr (verts L)) q' = 1%Z).
 Proof.
-  cbn zeta. intros Hc Hlen Hz Hnn Hn He Hdd Hlong Hed Hw.
-  rewrite (test_point_wn_parity L q o e1 e2 Hc Hlen Hz Hnn Hn He Hdd Hlong Hed).
+  cbn zeta. intros Hc Hlen Hz Hnn Hn He Hed Hw.
+  rewrite (test_point_wn_parity L q o e1 e2 Hc Hlen Hz Hnn Hn He Hed).
   set (w := Winding.wn _ _ _) in *. assert (H : w = 0%Z \/ w = 1%Z) by lia.
   destruct H as [H|H]; rewrite H; cbn; split; intros K; try discriminate; try lia; reflexivity.
 Qed.
 
-(** the answer does not depend on the ray: any other direction d2 that is generic for the projected outline gives the
-    same winding number ([Winding.wn_ray_independent_strong]: q on no closed edge suffices, no Jordan-curve argument) *)
+(** ... or along any other ray: any direction d2 that is generic for the projected outline gives the same winding number
+    ([Winding.wn_ray_independent_strong]: q on no closed edge suffices, no Jordan-curve argument) *)
 Corollary test_point_any_ray (L : Loop R) (q o e1 e2 : V) (d2 : P2) :
   lclosed L = true -> (2 <= llen L)%nat ->
   let n := lnormal L in let d := test_ray L q in
   let pr := plane2 o e1 e2 in let q' := pr q in let d' := planev e1 e2 d in
   vis_zero n = false -> 0 < vdot n n -> n = vcross e1 e2 ->
   (forall a b, In (a, b) (cyc_edges (verts L)) -> seg_contains_point (seg_new a b) q = Ok false /\ edge_generic n q d a b) ->
-  0 < vdot d d -> long_enough q d (verts L) ->
   (forall a b, In (a, b) (cyc_edges (verts L)) -> orient2 (pr a) (pr b) q' <> 0) ->
   Winding.generic d' q' (map pr (verts L)) -> Winding.generic d2 q' (map pr (verts L)) -> Winding.off_edges (map pr (verts L)) q' ->
   loop_test_point L q = Ok (Z.odd (Winding.wn d2 (map pr (verts L)) q')).
 Proof.
-  cbn zeta. intros Hc Hlen Hz Hnn Hn He Hdd Hlong Hed G1 G2 Off.
-  rewrite (test_point_wn_parity L q o e1 e2 Hc Hlen Hz Hnn Hn He Hdd Hlong Hed).
+  cbn zeta. intros Hc Hlen Hz Hnn Hn He Hed G1 G2 Off.
+  rewrite (test_point_wn_parity L q o e1 e2 Hc Hlen Hz Hnn Hn He Hed).
   rewrite (Winding.wn_ray_independent_strong _ d2 _ _ G1 G2 Off). reflexivity.
+Qed.
+
+(** ** the code before fix 6f318c4: the same only under the length hypothesis *)
+Theorem pinned_test_point_wn_parity (L : Loop R) (q o e1 e2 : V) :
+  lclosed L = true -> (2 <= llen L)%nat ->
+  let n := lnormal L in let d := pinned_ray L q in
+  let pr := plane2 o e1 e2 in let q' := pr q in let d' := planev e1 e2 d in
+  vis_zero n = false -> 0 < vdot n n -> n = vcross e1 e2 ->
+  (forall a b, In (a, b) (cyc_edges (verts L)) -> seg_contains_point (seg_new a b) q = Ok false /\ edge_generic n q d a b) ->
+  0 < vdot d d -> long_enough q d (verts L) ->
+  (forall a b, In (a, b) (cyc_edges (verts L)) -> orient2 (pr a) (pr b) q' <> 0) ->
+  loop_test_point_pinned L q = Ok (Z.odd (Winding.wn d' (map pr (verts L)) q')).
+Proof.
+  cbn zeta. intros Hc Hlen Hz Hnn Hn He Hdd Hl Hed. rewrite test_point_pinned_is_gen.
+  apply (test_point_gen_wn_parity pinned_ray); try assumption; [lia|].
+  apply (pinned_ray_in_plane L q Hlen). intros a b Hin. exact (proj2 (He a b Hin)).
 Qed.
